@@ -65,6 +65,250 @@ type c02desc struct {
 	RootSkip []bool     `json:"rootskip"` // per cascade: the root event triggers no rule
 	Shapes   []*c02node `json:"shapes"`
 	Corpus   string     `json:"corpus,omitempty"`
+	// wide family (mode "wide"): RootRules rules on the root event, each adding MidsPerRule events whose
+	// (overlapping) rule actions add LeavesPerMid events each; every leaf action fails
+	RootRules    int `json:"rootrules,omitempty"`
+	MidsPerRule  int `json:"midsperrule,omitempty"`
+	LeavesPerMid int `json:"leavespermid,omitempty"`
+	Cascades     int `json:"cascades,omitempty"`
+	InFlight     int `json:"inflight,omitempty"`
+}
+
+func c02dupID(ids []uint64) (uint64, bool) {
+	s := append([]uint64{}, ids...)
+	sort.Slice(s, func(i, j int) bool { return s[i] < s[j] })
+	for i := 1; i < len(s); i++ {
+		if s[i] == s[i-1] {
+			return s[i], true
+		}
+	}
+	return 0, false
+}
+
+// ---- wide family: many overlapping rule actions creating child monitors at the same time ----
+// Free running, Go-side oracles only (no trace: the hook handler only notes created ids, without
+// a lock, so that it does not serialise the workers): AllErrors() must be exactly the set of
+// failing actions, ids pairwise distinct, handler once, every monitor finished, return after
+// the last action.
+
+type c02wideSlot struct {
+	arrived int64
+	ended   int64
+	mons    []engine.Monitor
+	mu      sync.Mutex
+}
+
+func c02wide(c *Ctx, d *c02desc) {
+	const capIDs = 1 << 20
+	ids := make([]uint64, capIDs)
+	var nids int64
+	var hooked int32
+	verifhook.SetHandler(func(point string, args ...interface{}) {
+		switch point {
+		case "c02.mon.created":
+			atomic.StoreInt32(&hooked, 1)
+			if i := atomic.AddInt64(&nids, 1); i <= capIDs {
+				ids[i-1] = c02id(args[1])
+			}
+		case "c02.root.new":
+			if i := atomic.AddInt64(&nids, 1); i <= capIDs {
+				ids[i-1] = c02id(args[0])
+			}
+		}
+	})
+	defer verifhook.SetHandler(nil)
+
+	proc := engine.NewProcessor(d.Workers)
+	slots := make([]atomic.Value, d.InFlight)
+	mids := d.RootRules * d.MidsPerRule
+	barrier := int64(mids)
+	if int64(d.Workers) < barrier {
+		barrier = int64(d.Workers)
+	}
+	for k := 0; k < d.InFlight; k++ {
+		k := k
+		pre := fmt.Sprintf("w%d", k)
+		for ri := 0; ri < d.RootRules; ri++ {
+			ri := ri
+			proc.AddRule(&engine.Rule{Name: fmt.Sprintf("%s.root.r%d", pre, ri), KindMatch: []string{pre + ".root"}, ScopeMatch: []string{"c02"}, Priority: ri,
+				Action: func(p engine.Processor, m engine.Monitor, e *engine.Event, tid uint64) error {
+					st := slots[k].Load().(*c02wideSlot)
+					for mi := 0; mi < d.MidsPerRule; mi++ {
+						cm := m.NewChildMonitor(0)
+						st.mu.Lock()
+						st.mons = append(st.mons, cm)
+						st.mu.Unlock()
+						p.AddEvent(engine.NewEvent(fmt.Sprintf("%s.mid.%d.%d", pre, ri, mi), []string{pre, "mid"}, nil), cm)
+					}
+					atomic.AddInt64(&st.ended, 1)
+					if ri == 0 {
+						return fmt.Errorf("root rule 0 fails")
+					}
+					return nil
+				}})
+		}
+		proc.AddRule(&engine.Rule{Name: pre + ".midrule", KindMatch: []string{pre + ".mid"}, ScopeMatch: []string{"c02"},
+			Action: func(p engine.Processor, m engine.Monitor, e *engine.Event, tid uint64) error {
+				st := slots[k].Load().(*c02wideSlot)
+				// line the overlapping actions up (bounded): they create their child monitors at the same time
+				atomic.AddInt64(&st.arrived, 1)
+				for dl := time.Now().Add(300 * time.Microsecond); atomic.LoadInt64(&st.arrived) < barrier && time.Now().Before(dl); {
+					runtime.Gosched()
+				}
+				local := make([]engine.Monitor, 0, d.LeavesPerMid)
+				for j := 0; j < d.LeavesPerMid; j++ {
+					cm := m.NewChildMonitor(0)
+					local = append(local, cm)
+					p.AddEvent(engine.NewEvent(fmt.Sprintf("%s.leaf.%s.%d", pre, strings.TrimPrefix(e.Name(), pre+".mid."), j), []string{pre, "leaf"}, nil), cm)
+				}
+				st.mu.Lock()
+				st.mons = append(st.mons, local...)
+				st.mu.Unlock()
+				atomic.AddInt64(&st.ended, 1)
+				return nil
+			}})
+		proc.AddRule(&engine.Rule{Name: pre + ".leafrule", KindMatch: []string{pre + ".leaf"}, ScopeMatch: []string{"c02"},
+			Action: func(p engine.Processor, m engine.Monitor, e *engine.Event, tid uint64) error {
+				st := slots[k].Load().(*c02wideSlot)
+				atomic.AddInt64(&st.ended, 1)
+				return fmt.Errorf("leaf %s fails", e.Name())
+			}})
+	}
+	proc.Start()
+	expectedActions := int64(d.RootRules + mids + mids*d.LeavesPerMid)
+	type outcome struct{ key, desc string }
+	var omu sync.Mutex
+	var outs []outcome
+	report := func(key, desc string) {
+		omu.Lock()
+		outs = append(outs, outcome{key, desc})
+		omu.Unlock()
+	}
+	runOne := func(k int, seq int) {
+		pre := fmt.Sprintf("w%d", k)
+		st := &c02wideSlot{}
+		slots[k].Store(st)
+		rm := proc.NewRootMonitor(nil, nil)
+		var handler int32
+		rm.SetFinishHandler(func(engine.Processor) { atomic.AddInt32(&handler, 1) })
+		done := make(chan struct{})
+		go func() {
+			proc.AddEventAndWait(engine.NewEvent(pre+".root", []string{pre, "root"}, nil), rm)
+			close(done)
+		}()
+		select {
+		case <-done:
+		case <-time.After(30 * time.Second):
+			report("nontermination", fmt.Sprintf("cascade %d: AddEventAndWait did not return within 30s", seq))
+			return
+		}
+		if got := atomic.LoadInt64(&st.ended); got < expectedActions {
+			report("return-before-last-action", fmt.Sprintf("cascade %d: AddEventAndWait returned after %d of %d rule actions", seq, got, expectedActions))
+		}
+		expected := map[string]bool{pre + ".root/" + pre + ".root.r0": true}
+		for ri := 0; ri < d.RootRules; ri++ {
+			for mi := 0; mi < d.MidsPerRule; mi++ {
+				for j := 0; j < d.LeavesPerMid; j++ {
+					expected[fmt.Sprintf("%s.leaf.%d.%d.%d/%s.leafrule", pre, ri, mi, j, pre)] = true
+				}
+			}
+		}
+		got := map[string]int{}
+		n := 0
+		for _, te := range rm.AllErrors() {
+			for rule := range te.ErrorMap {
+				got[te.Event.Name()+"/"+rule]++
+				n++
+			}
+			if te.Monitor.RootMonitor() != rm {
+				report("error-attribution", fmt.Sprintf("cascade %d: AllErrors() holds an entry of another root monitor", seq))
+			}
+		}
+		var missing, extra []string
+		for kx := range expected {
+			if got[kx] != 1 {
+				missing = append(missing, fmt.Sprintf("%s x%d", kx, got[kx]))
+			}
+		}
+		for kx := range got {
+			if !expected[kx] {
+				extra = append(extra, kx)
+			}
+		}
+		if len(missing) > 0 || len(extra) > 0 {
+			sort.Strings(missing)
+			sort.Strings(extra)
+			if len(missing) > 4 {
+				missing = missing[:4]
+			}
+			report("error-report", fmt.Sprintf("cascade %d: AllErrors() has %d entries, %d actions failed; not reported exactly once: %v; unexpected: %v", seq, n, len(expected), missing, extra))
+		}
+		// the handler and the last callbacks run on the poster's goroutine after the waiter was released
+		for i := 0; i < 2000 && atomic.LoadInt32(&handler) == 0; i++ {
+			time.Sleep(50 * time.Microsecond)
+		}
+		if h := atomic.LoadInt32(&handler); h != 1 {
+			report("finish-count", fmt.Sprintf("cascade %d: finish handler called %d times", seq, h))
+		}
+		st.mu.Lock()
+		for _, m := range st.mons {
+			if cm, ok := m.(*engine.ChildMonitor); ok && !cm.IsFinished() {
+				report("unfinished-monitor", fmt.Sprintf("cascade %d: monitor %d is not finished", seq, cm.ID()))
+				break
+			}
+		}
+		st.mu.Unlock()
+	}
+	seq := 0
+	for seq < d.Cascades {
+		var wg sync.WaitGroup
+		for k := 0; k < d.InFlight && seq < d.Cascades; k++ {
+			wg.Add(1)
+			go func(k, s int) { defer wg.Done(); runOne(k, s) }(k, seq)
+			seq++
+		}
+		wg.Wait()
+		omu.Lock()
+		stop := len(outs) > 0
+		omu.Unlock()
+		if stop {
+			break
+		}
+	}
+	time.Sleep(2 * time.Millisecond)
+	proc.Finish()
+	c.Dist["runs_wide"]++
+	c.Dist["wide_cascades"] += seq
+	c.Dist["wide_leaf_failures"] += seq * mids * d.LeavesPerMid
+	if atomic.LoadInt32(&hooked) == 0 {
+		c.Extra["fatal"] = "no c02.* observation point fired: fixes/hooks-C02.patch is not applied to the repository under test"
+		return
+	}
+	n := atomic.LoadInt64(&nids)
+	if n > capIDs {
+		n = capIDs
+	}
+	if dup, ok := c02dupID(ids[:n]); ok {
+		c.Violate("duplicate-monitor-id", fmt.Sprintf("two of the %d monitors created in this run carry the same id %d (RootMonitor.errors and TaskQueue.queues are keyed by monitor id)", n, dup), d)
+	}
+	for _, o := range outs {
+		c.Violate(o.key, o.desc, d)
+	}
+	c.Count(fmt.Sprintf("wide-%d", d.Seed), true, d)
+}
+
+func c02wideDesc(seed int64, cascades int) *c02desc {
+	rng := rand.New(rand.NewSource(seed))
+	d := &c02desc{Seed: seed, Mode: "wide", Workers: 8 + rng.Intn(9), Cascades: cascades, InFlight: 1 + rng.Intn(3), LeavesPerMid: 2 + rng.Intn(3)}
+	if rng.Intn(2) == 0 {
+		d.RootRules, d.MidsPerRule = 8+rng.Intn(9), 1 // 8-16 rules on the root event, one overlapping mid-level action each
+	} else {
+		d.RootRules, d.MidsPerRule = 1, 8+rng.Intn(9) // one root rule, 8-16 overlapping mid-level actions
+	}
+	if rng.Intn(3) == 0 {
+		d.RootRules, d.MidsPerRule = 8, 2
+	}
+	return d
 }
 
 func c02gen(rng *rand.Rand, depth, maxFan int, next *int) *c02node {
@@ -401,6 +645,23 @@ func c02run(d *c02desc) c02result {
 	rec.mu.Lock()
 	evs := rec.evs
 	rec.mu.Unlock()
+	// oracle: every monitor created during the run has its own id
+	{
+		var created []uint64
+		for _, e := range evs {
+			switch e.point {
+			case "c02.root.new":
+				created = append(created, e.a[0])
+			case "c02.mon.created":
+				created = append(created, e.a[1])
+			}
+		}
+		if dup, ok := c02dupID(created); ok {
+			res.problem = fmt.Sprintf("two monitors created in one run carry the same id %d (RootMonitor.errors and TaskQueue.queues are keyed by monitor id)", dup)
+			res.probKey = "duplicate-monitor-id"
+			return res
+		}
+	}
 	idmap := map[uint64]int{}
 	mid := func(x uint64) int {
 		if v, ok := idmap[x]; ok {
@@ -678,6 +939,24 @@ func c02corpus() []*c02desc {
 		Shapes: []*c02node{leaf(0, true)}, Corpus: "single-failing"})
 	res = append(res, &c02desc{Seed: 9012, Mode: "controlled", Workers: 3, Wait: []bool{true, true, false}, RootSkip: []bool{false, false, false},
 		Shapes: []*c02node{a, leaf(0, true), a}, Corpus: "three-cascades"})
+	wideShape := func(mids, leaves int) *c02node {
+		id := 1
+		root := &c02node{ID: 0, Rules: []c02rule{{}}}
+		for i := 0; i < mids; i++ {
+			mid := &c02node{ID: id, Rules: []c02rule{{}}}
+			id++
+			for j := 0; j < leaves; j++ {
+				mid.Rules[0].Children = append(mid.Rules[0].Children, c02child{Node: leaf(id, true)})
+				id++
+			}
+			root.Rules[0].Children = append(root.Rules[0].Children, c02child{Node: mid})
+		}
+		return root
+	}
+	res = append(res, &c02desc{Seed: 9020, Mode: "free", Workers: 16, Wait: []bool{true}, RootSkip: []bool{false},
+		Shapes: []*c02node{wideShape(12, 3)}, Corpus: "wide-12x3-all-leaves-fail"})
+	res = append(res, &c02desc{Seed: 9021, Mode: "free", Workers: 8, Wait: []bool{true, true}, RootSkip: []bool{false, false},
+		Shapes: []*c02node{wideShape(8, 2), wideShape(8, 4)}, Corpus: "wide-two-in-flight"})
 	return res
 }
 
@@ -685,6 +964,10 @@ func c02one(c *Ctx, d *c02desc) {
 	os.WriteFile(filepath.Join(c.Out, "current.json"), mustJSON(d), 0o644)
 	if d.Mode == "ecal" {
 		c02ecal(c, d)
+		return
+	}
+	if d.Mode == "wide" {
+		c02wide(c, d)
 		return
 	}
 	r := c02run(d)
@@ -717,7 +1000,7 @@ func c02one(c *Ctx, d *c02desc) {
 func mustJSON(v interface{}) []byte { b, _ := json.Marshal(v); return b }
 
 func runC02(c *Ctx) error {
-	c.Rule = "cascade shapes generated from the seed: 1-2 rules per event, fan-out <= 4 per event, depth <= 4, a child is a skipped (non-triggering) event with probability 1/5, a rule fails with probability 1/4 (any position), 1-3 cascades in flight (AddEventAndWait, or AddEvent + finish handler with probability 1/4; root event skipped with probability 1/12), workers from {1,2,3,4,8,16}; controlled runs delay goroutines at seed-chosen hook points (always between the zero crossing and the post), free runs do not; ECAL runs build the same shapes as sinks and observe addEventAndWait's result; a fixed corpus first; non-trivial = more than one rule action; distinct by (mode, seed)"
+	c.Rule = "(a) traced runs: cascade shapes generated from the seed: 1-2 rules per event, fan-out <= 4 per event, depth <= 4, a child is a skipped (non-triggering) event with probability 1/5, a rule fails with probability 1/4 (any position), 1-3 cascades in flight (AddEventAndWait, or AddEvent + finish handler with probability 1/4; root event skipped with probability 1/12), workers from {1,2,3,4,8,16}; controlled runs delay goroutines at seed-chosen hook points (always between the zero crossing and the post), free runs do not; ECAL runs build the same shapes as sinks and observe addEventAndWait's result; a fixed corpus first; (b) wide family, free running, Go-side oracles only: 8-16 workers, a root event with 8-16 rules (or one rule adding 8-16 events) whose 8-16 overlapping mid-level actions are lined up and add 2-4 events each, every leaf action failing, 120 (thorough 600) cascades per run, 1-3 in flight; AllErrors() must equal the failing actions exactly; on every run all monitor ids created must be pairwise distinct; non-trivial = more than one rule action; distinct by (mode, seed)"
 	c.BeginCases("From Coq Require Import List.\nImport ListNotations.\nFrom Ecal Require Import Model.Cascade Run.RunC02.", "case", 30)
 
 	if os.Getenv("C02_CHILD") == "" && c.Replay == "" {
@@ -764,6 +1047,10 @@ func runC02(c *Ctx) error {
 		}
 		for i := 0; i < ne; i++ {
 			all = append(all, c02descFor(c.Seed*100000+80000+int64(i), "ecal"))
+		}
+		// wide family: quick 12 runs x 120 cascades, thorough 40 runs x 600 cascades
+		for i := 0; i < c.Pick(12, 40); i++ {
+			all = append(all, c02wideDesc(c.Seed*100000+90000+int64(i), c.Pick(120, 600)))
 		}
 		for _, d := range all {
 			if c.Enough() || c.Extra["fatal"] != nil {
